@@ -542,7 +542,7 @@ func icsTest(t *testing.T, prop, name string, quick, thorough int) {
 	})
 }
 
-func TestC02_ICS20(t *testing.T) { icsTest(t, "C02", "TestC02_ICS20", 40, 1500) }
-func TestC04_ICS20(t *testing.T) { icsTest(t, "C04", "TestC04_ICS20", 40, 1500) }
-func TestC05_ICS20(t *testing.T) { icsTest(t, "C05", "TestC05_ICS20", 40, 1500) }
-func TestC16_ICS20(t *testing.T) { icsTest(t, "C16", "TestC16_ICS20", 40, 1500) }
+func TestC02_ICS20(t *testing.T) { icsTest(t, "C02", "TestC02_ICS20", 40, 2500) }
+func TestC04_ICS20(t *testing.T) { icsTest(t, "C04", "TestC04_ICS20", 40, 2500) }
+func TestC05_ICS20(t *testing.T) { icsTest(t, "C05", "TestC05_ICS20", 40, 2500) }
+func TestC16_ICS20(t *testing.T) { icsTest(t, "C16", "TestC16_ICS20", 40, 2500) }
